@@ -295,6 +295,9 @@ class Tle:
         date = orbit.date.change_scale("UTC").datetime
         i, Ω, e, ω, M, n = orbit
 
+        if not "{:.7f}".format(e).startswith("0."):
+            raise TleParseError(f"Eccentricity {e} can not be written in a TLE")
+
         line1 = "1 {norad_id:0>5}U {cospar_id:<8} {date:%y}{day:012.8f} {ndot:>10} {ndotdot:>8} {bstar:>8} 0 {elnb:>4}".format(
             norad_id=norad_id,
             cospar_id=cospar_id,
